@@ -11,6 +11,7 @@ mod c07;
 mod c08;
 mod c13;
 mod c17;
+mod c20;
 mod prom;
 mod sched;
 mod expo;
@@ -64,6 +65,7 @@ fn main() {
         }
         "C13" => c13::run(&cfg, &mut out),
         "C17" => c17::run(&cfg, &mut out),
+        "C20" => c20::run(&cfg, &mut out),
         other => {
             eprintln!("unknown property {}", other);
             std::process::exit(2);
